@@ -250,7 +250,36 @@ def all_vars(h, *extra):
     return vs
 
 
-def build_real(h, values, mobile=None):
+class ScriptedTable:
+    """location table double for replays: same contract as Harness._table, concrete answers from the model"""
+
+    def __init__(self, entries, dup_methods):
+        self.entries, self.dup_methods, self.calls = entries, dup_methods, []
+
+    def get_entry(self, addr):
+        res = None
+        for e in self.entries:
+            if e.position_vector.gn_addr == addr:
+                res = e
+        return res
+
+    def get_neighbours(self):
+        return [e for e in self.entries if e.is_neighbour]
+
+    def refresh_table(self):
+        pass
+
+    def __getattr__(self, name):
+        if name.startswith("new_"):
+            def f(*a, **k):
+                self.calls.append(name)
+                if name in self.dup_methods:
+                    raise DuplicatedPacketException("Packet is duplicated")
+            return f
+        raise AttributeError(name)
+
+
+def build_real(h, values, mobile=None, scripted_table=True):
     """real Router in the concrete state described by the model"""
     from flexstack.geonet.mib import MIB
     import dataclasses
@@ -267,6 +296,7 @@ def build_real(h, values, mobile=None):
     sn = getattr(h, "sn0", None)
     if isinstance(sn, z3.ExprRef):
         R.sequence_number = eval_term(sn, values)
+    real_entries = []
     for addr, present, e in getattr(h, "entries", []):
         if eval_term(present, values) if isinstance(present, z3.ExprRef) else present:
             ent = LocationTableEntry(mib)
@@ -275,6 +305,11 @@ def build_real(h, values, mobile=None):
             ent.ls_pending = bool(G.concretize(e.fields["ls_pending"], values))
             ent.pdr = float(G.concretize(e.fields["pdr"], values))
             R.location_table.loc_t[ent.position_vector.gn_addr] = ent
+            real_entries.append(ent)
+    if getattr(h, "table_mode", None) == "stub" and scripted_table:
+        # the symbolic run used the table CONTRACT (arbitrary answers); the replay gives the real Router a table
+        # that answers exactly as in the model
+        R.location_table = ScriptedTable(real_entries, {n for n, d in h.dup.items() if values.get(d.decl().name())})
     # free-valued stubs: the calls on the model's path, in order
     from unittest import mock
     class_patches = []
